@@ -1,3 +1,5 @@
+/-! Shared instances. -/
+deriving instance DecidableEq for Except
+
 namespace MageModel
-def hello := 1
 end MageModel
